@@ -339,8 +339,17 @@ func Main(id, level string, body func(r *Run)) {
 	func() {
 		defer func() {
 			if p := recover(); p != nil {
+				st := string(debug.Stack())
+				if cp, ok := p.(*CarriedPanic); ok {
+					p, st = cp.Val, cp.Stack
+				}
+				if site := panicSite(st); site != "outside-repo" {
+					// the repository's code panicked at a call site the driver had not wrapped: still a verdict
+					r.Violation(r.CaseAlways("unguarded", 0), "panic:"+site, fmt.Sprintf("panic: %v\n%s", p, st), nil)
+					return
+				}
 				// A panic of the driver itself is a harness failure, not a verdict.
-				fmt.Fprintf(os.Stderr, "HARNESS PANIC: %v\n%s\n", p, debug.Stack())
+				fmt.Fprintf(os.Stderr, "HARNESS PANIC: %v\n%s\n", p, st)
 				r.Inconclusive(fmt.Sprintf("harness panic: %v", p))
 			}
 		}()
